@@ -350,6 +350,12 @@ impl<'a> PlanBuilder<'a> {
 
         debug_assert!(!frontier.is_empty(), "initial frontier is empty");
 
+        // Operators which have been added to the frontier at some point. An
+        // operator must be scheduled only once, even if one of its inputs is
+        // both available from the start and produced by an operator in the
+        // plan.
+        let mut scheduled: FxHashSet<NodeId> = frontier.iter().map(|(id, _)| *id).collect();
+
         // Loop while we still have operators to compute.
         while !frontier.is_empty() {
             // Choose an operator to execute next and add it to the plan.
@@ -377,7 +383,7 @@ impl<'a> PlanBuilder<'a> {
                     continue;
                 };
                 for (candidate_op_id, candidate_op) in deps {
-                    if frontier.iter().any(|(op_id, _)| op_id == candidate_op_id) {
+                    if scheduled.contains(candidate_op_id) {
                         continue;
                     }
 
@@ -386,6 +392,7 @@ impl<'a> PlanBuilder<'a> {
                         .operator_dependencies(candidate_op)
                         .all(|id| resolved_values.contains(id))
                     {
+                        scheduled.insert(*candidate_op_id);
                         frontier.push((*candidate_op_id, candidate_op));
                     }
                 }
